@@ -340,7 +340,9 @@ def build() -> Check:
     # whatever the two thread roots record must be re-raised by the thread blocked in execute()
     recorded = set()
     for f in (fn, resub):
-        for h in [n for n in ast.walk(f.node) if isinstance(n, ast.ExceptHandler) and h_covers_bte(prog, f, n)]:
+        # (handlers that can see a failed checkpoint, and every other handler that wakes the waiter - mutscan 5: the `except RuntimeError` arm of the resubmitter
+        # stored its error in another attribute of self; "stored before woken" held and nobody asked where)
+        for h in [n for n in ast.walk(f.node) if isinstance(n, ast.ExceptHandler) and (h_covers_bte(prog, f, n) or "_completion_event.set()" in ast.unparse(n))]:
             for st in ast.walk(ast.Module(body=h.body, type_ignores=[])):
                 if isinstance(st, ast.Assign) and isinstance(st.targets[0], ast.Attribute) and isinstance(st.value, ast.Name) and st.value.id == h.name:
                     recorded.add(st.targets[0].attr)
@@ -352,6 +354,8 @@ def build() -> Check:
         raises = [n for n in g.nodes if isinstance(n.stmt, ast.Raise) and n.stmt.exc is not None and isinstance(n.stmt.exc, ast.Attribute)
                   and n.stmt.exc.attr in recorded]
         ok = bool(waits) and bool(raises) and all(any(g.dominates(w.idx, r.idx) for w in waits) for r in raises)
+        # ... every slot, not just some of them
+        ok = ok and {r.stmt.exc.attr for r in raises} >= recorded
         # and the test guarding it must be evaluated before the suspension decision
         guards = [x for x in g.nodes if x.kind == "header" and isinstance(x.stmt, ast.If)
                   and any(r.stmt in x.stmt.body for r in raises)]
